@@ -418,7 +418,7 @@ def _magnitude_ok(v):
 
 FAMILIES_ALL = ['un', 'un', 'kink', 'special', 'unp', 'bin', 'bin', 'bcast', 'binc', 'binc', 'pow', 'neg', 'get', 'get', 'T', 'reshape',
                 'buf', 'set', 'set', 'rmw', 'rmw', 'sum', 'prod', 'trace', 'dot', 'dot', 'dotc', 'outer', 'inv', 'solve', 'det',
-                'logdet', 'qr', 'chol', 'eigh', 'svd', 'lu', 'fft', 'tile', 'diag', 'symvec']
+                'logdet', 'qr', 'chol', 'eigh', 'svd', 'lu', 'fft', 'tile', 'diag', 'symvec', 'vecsym', 'cplx']
 FAMILIES_FWD_ONLY = ['unfwd', 'minmax', 'tri', 'abs', 'expm', 'svdfull', 'umax', 'powreg', 'iop', 'solvec', 'shift', 'rpowc', 'eighraw']
 FAMILIES_POLY = ['un', 'bin', 'bin', 'bcast', 'binc', 'binc', 'pow', 'neg', 'get', 'get', 'T', 'reshape', 'buf', 'set', 'rmw', 'sum', 'prod',
                  'trace', 'dot', 'dot', 'dotc', 'outer', 'tile', 'diag']
@@ -611,7 +611,7 @@ FIRST_INPUT = {'inv': 'regular', 'det': 'regular', 'logdet': 'posdet', 'solve': 
                'chol': 'square', 'eigh': 'gapsym', 'svd': 'svd', 'trace': 'matrix', 'T': 'matrix', 'diag': 'vecorsquare',
                'symvec': 'square', 'outer': 'vector', 'dot': 'vecormat', 'dotc': 'vecormat', 'prod': 'vector', 'tile': 'vecormat',
                'sum': 'vecormat', 'reshape': 'vecormat', 'get': 'vecormat', 'fft': 'vecormat', 'tri': 'matrix',
-               'expm': 'square', 'svdfull': 'svd', 'minmax': 'vecormat', 'umax': 'vector', 'kink': 'awayzero', 'abs': 'awayzero', 'pow': 'withzeros', 'special': 'unitinterval', 'unp': 'unitinterval', 'unfwd': 'unitinterval', 'dotnd': 'cube', 'eig': 'realeig', 'powreg': 'unitinterval', 'solvec': 'regular', 'iop': 'vecormat', 'rpowc': 'vecormat', 'eighraw': 'square', 'vec2lin': 'vecgapsym', 'umaxtie': 'tievector'}
+               'expm': 'square', 'svdfull': 'svd', 'minmax': 'vecormat', 'umax': 'vector', 'kink': 'awayzero', 'abs': 'awayzero', 'pow': 'withzeros', 'special': 'unitinterval', 'unp': 'unitinterval', 'unfwd': 'unitinterval', 'dotnd': 'cube', 'eig': 'realeig', 'powreg': 'unitinterval', 'solvec': 'regular', 'iop': 'vecormat', 'rpowc': 'vecormat', 'eighraw': 'square', 'vec2lin': 'vecgapsym', 'umaxtie': 'tievector', 'vecsym': 'vec36', 'cplx': 'vecormat'}
 
 
 @st.composite
@@ -680,6 +680,8 @@ def _special_input(draw, first, K, max_side):
         return draw(gen.float_array((K,) + shape, elems, sparse=False))
     if kind == 'vector':
         return draw(gen.float_array((K, n), elems, sparse=False))
+    if kind == 'vec36':
+        return draw(gen.float_array((K, draw(st.sampled_from([3, 6, 3]))), elems, sparse=False))
     if kind == 'tievector':
         # few distinct values: the maximum is attained by several entries at most probe points
         n = draw(st.integers(2, 4))
@@ -1246,6 +1248,43 @@ def _emit_family_impl(draw, S, fam, allow_set_broadcast=True, allow_ndim_dot=Fal
         if a is None:
             return False
         return S.try_emit(['diag', a])
+    if fam == 'vecsym':
+        # vector of n(n+1)/2 entries -> symmetric matrix, then consumed NON-symmetrically (a symmetric consumer hides a pullback
+        # that treats the two off-diagonal copies differently)
+        a = _pick(draw, S, lambda r: S.ndim(r) == 1 and S.shape(r)[0] in (3, 6) and real(r))
+        if a is None:
+            return False
+        if not S.try_emit(['vecsym', a]):
+            return False
+        m = S.nreg() - 1
+        n = S.shape(m)[0]
+        form = draw(st.integers(0, 3))
+        if form == 0:
+            c = np.array(draw(gen.float_array((n, n), st.sampled_from([0.5, 1.0, 2.0, -1.0, 1.5, 3.0, 0.0]), sparse=False)))
+            S.try_emit(['binc', 'mul', m, c, 'r'])
+        elif form == 1:
+            S.try_emit(['get', m, (draw(st.integers(0, n - 2)), slice(draw(st.integers(1, n - 1)), None))])
+        elif form == 2:
+            c = np.array(draw(gen.float_array((n, draw(st.integers(1, 2))), st.sampled_from([0.5, 1.0, 2.0, -1.0]), sparse=False)))
+            S.try_emit(['dotc', m, c, 'r'])
+        else:
+            b = _pick(draw, S, lambda r: S.shape(r) == (n, n) and r != m and real(r))
+            if b is not None:
+                S.try_emit(['bin', 'mul', m, b])
+        return True
+    if fam == 'cplx':
+        # real / imag / conjugate applied to a value that is REAL while recording (a replay may be complex)
+        a = _pick(draw, S, real)
+        if a is None:
+            return False
+        form = draw(st.integers(0, 3))
+        if form == 0:
+            return S.try_emit(['conj', a]) and S.try_emit(['bin', 'mul', a, S.nreg() - 1]) and S.try_emit(['real', S.nreg() - 1])
+        if form == 1:
+            return S.try_emit(['real', a])
+        if form == 2:
+            return S.try_emit(['conj', a])
+        return S.try_emit(['imag', a]) and S.try_emit(['bin', 'add', a, S.nreg() - 1])
     raise KeyError(fam)
 
 
@@ -1379,8 +1418,10 @@ def features(case):
                 f.add('real-pow')
         if op in ('dot', 'dotc', 'outer'):
             f.add(op)
-        if op in ('symvec_raw', 'rpowc'):
+        if op in ('symvec_raw', 'rpowc', 'vecsym'):
             f.add(op)
+        if op in ('real', 'imag', 'conj') and not any(q[0] in ('fft', 'ifft') for q in prog):
+            f.add('real/imag/conj-of-real-value')
         if op in ('inv', 'solve', 'det', 'logdet', 'qr', 'qr_full', 'chol_spd', 'eigh_sym', 'eigh_fun', 'svd_s', 'lu', 'expm', 'svd_full', 'eig_val', 'eigh_raw'):
             f.add('linalg')
             f.add('linalg:' + op)
